@@ -183,6 +183,10 @@ def extract():
     # constants: measured from the behaviour of the real loop on the simulated clock
     sim = Sim(lambda r: 0, horizon=700)
     run_monitor(sim)
+    if not sim.refreshes:
+        # no refresh within 700 s: look further (a helper that refreshes rarely - or never - must still be measured, not skipped)
+        sim = Sim(lambda r: 0, horizon=40000)
+        run_monitor(sim)
     sleeps = {c[1] for c in sim.calls if c[0] == 'sleep'}
     period = sorted(sleeps)[0] if len(sleeps) == 1 else -1
     rounds = int(round(sim.refreshes[0] / period)) if sim.refreshes and period > 0 else 0
@@ -234,6 +238,25 @@ def extract():
         lk.fail()
         fail_kills = seen.get('killed', 0) > k1
         lk.release()
+        # fail() racing a refresh: the helper is in the middle of a refresh when it is told to stop (its last utime lands at the
+        # instant of the kill). The failed mark must survive that.
+        lk2 = fs.file_keepalive_based_lock(os.path.join(d, 'jd'), 'name2')
+        lk2.get()
+        mon = lk2.monitor
+        if mon is not None:
+            real_kill = mon.kill
+
+            def kill_with_last_refresh(mon=mon, real_kill=real_kill, path=lk2.fullname):
+                try:
+                    os.utime(path, None)
+                except OSError:
+                    pass
+                return real_kill()
+            mon.kill = kill_with_last_refresh
+        lk2.fail()
+        other = fs.file_keepalive_based_lock(os.path.join(d, 'jd'), 'name2')
+        seen['mark_survives_refresh'] = bool(other.is_failed())
+        lk2.release()
     finally:
         fs.Popen = saved
         core.rm_rf(d)
@@ -245,9 +268,11 @@ def extract():
     txt += 'def popenExtraKwargs : List String := [%s]\n' % ', '.join('"%s"' % k for k in sorted(seen.get('kw', {})))
     txt += 'def popenPathIsLockPath : Bool := %s\n' % ('true' if path_ok else 'false')
     txt += 'def releaseKillsHelper : Bool := %s\ndef failKillsHelper : Bool := %s\n' % ('true' if rel_kills else 'false', 'true' if fail_kills else 'false')
+    txt += '/-- a refresh that lands while the helper is being stopped by fail() does not undo the failed mark (the helper is stopped first) -/\n'
+    txt += 'def failMarkSurvivesRacingRefresh : Bool := %s\n' % ('true' if seen.get('mark_survives_refresh') else 'false')
     txt += 'end Jug.Generated.KeepAlive\n'
     core.write_generated('KeepAliveConsts', txt)
-    return {'period': period, 'rounds': rounds, 'expiry': expiry}
+    return {'period': period, 'rounds': rounds, 'expiry': expiry, 'mark_survives_refresh': bool(seen.get('mark_survives_refresh'))}
 
 
 def check(run):
@@ -260,6 +285,10 @@ def check(run):
     run.trusted = ['Lean 4.33.0 kernel', 'axioms propext, Classical.choice, Quot.sound', 'harness/jugverif/props/c19.py (simulated clock; constants and call order are measured from the behaviour of the real loop)']
     k = extract()
     run.lean(['JugModel.Props.C19', 'jugdrv'], theorems_expected=THEOREMS)
+    run.case(('fail-racing-refresh',), nontrivial=True)
+    if not k.get('mark_survives_refresh', True):
+        run.fail('failed-mark-lost-to-refresh', 'keep-alive lock: the holder calls fail() while its helper is in the middle of a refresh (the last utime lands as the helper is stopped): '
+                 'afterwards another client sees is_failed() = False - the lock marked failed is reported as an ordinary live lock', {'kind': 'fail-racing-refresh'})
     rng = core.rng_for(run.seed, 'c19')
     P, R, E = k['period'], k['rounds'], k['expiry']
     if P <= 0 or R <= 0:
@@ -426,14 +455,14 @@ r = after(slow(20))
 '''
 
 
-def dead_worker_cleanup(run, expiry):
+def dead_worker_cleanup(run, expiry, mode='failed-only'):
     """end to end on the keep-alive backend with real processes: a worker is SIGKILLed inside a task; its lock, once older than the expiry,
     is reported failed; `jug cleanup --failed-only` removes it (and only then); a new worker completes the computation"""
     import signal
     import subprocess
     from jugverif.loadercheck import jug_cli, jug_cli_popen
     d = core.scratch_dir()
-    rp = {'kind': 'dead-worker-cleanup'}
+    rp = {'kind': 'dead-worker-cleanup', 'mode': mode}
     try:
         open(os.path.join(d, 'jugfile.py'), 'w').write(KA_JUGFILE)
         open(os.path.join(d, 'block'), 'w').close()
@@ -466,9 +495,9 @@ def dead_worker_cleanup(run, expiry):
         now = time.time()
         os.utime(lf, (now - expiry - 60, now - expiry - 60))
         st = jug_cli(['status'] + common + ['jugfile.py'], d).stdout
-        r = jug_cli(['cleanup'] + common + ['--failed-only', 'jugfile.py'], d)
+        r = jug_cli(['cleanup'] + common + ['--' + mode, 'jugfile.py'], d)
         if os.path.exists(lf):
-            run.fail('expired-lock-not-cleaned', 'the lock of a dead worker, not refreshed for expiry + 60 s, is still there after `jug cleanup --failed-only` (which printed %r)' % r.stdout.strip().split('\n')[-1], rp)
+            run.fail('expired-lock-not-cleaned', 'the lock of a dead worker, not refreshed for expiry + 60 s, is still there after `jug cleanup --%s` (which printed %r)' % (mode, r.stdout.strip().split('\n')[-1]), dict(rp, mode=mode))
             return
         r2 = jug_cli(['execute'] + common + ['--nr-wait-cycles', '1', '--wait-cycle-time', '0', 'jugfile.py'], d)
         chk = jug_cli(['check'] + common + ['jugfile.py'], d)
@@ -486,7 +515,7 @@ def replay(path):
     r = d['replay']
     run = core.Run('C19', 'quick')
     if r.get('kind') == 'dead-worker-cleanup':
-        return core.replay_family('C19', d['key'], lambda run_: dead_worker_cleanup(run_, extract()['expiry']))
+        return core.replay_family('C19', d['key'], lambda run_: dead_worker_cleanup(run_, extract()['expiry'], r.get('mode', 'failed-only')))
     if r.get('kind') == 'real-helper':
         real_helper(run, r.get('mode') == 'release')
     elif r.get('kind') == 'death':
